@@ -816,7 +816,9 @@ def vacuity(total: Result, tier: str) -> list[str]:
         out.append("ensure_resource_availability never silent where the text forbids a report")
     if c.get("metadata_shapes_compared_with_real_link_machinery", 0) < len(LINKS) + len(OPS):
         out.append("link metadata was not compared with the real link machinery")
-    depth = max(BOUNDS[tier][f]["depth"] for f in BOUNDS[tier])
+    # a run stopped by the time cap (reported as exhaustive=False by the runner) may not have reached the deepest family
+    capped = "items_done_before_time_cap" in c
+    depth = min(BOUNDS[tier][f]["depth"] for f in BOUNDS[tier]) if capped else max(BOUNDS[tier][f]["depth"] for f in BOUNDS[tier])
     if not c.get(f"depth_{depth}"):
         out.append(f"no history of depth {depth} was reached")
     if len(total.outcomes) < 3:
